@@ -29,7 +29,8 @@ def main():
             if os.path.isdir(src) and item == "infretis":
                 shutil.copytree(src, os.path.join(d, item), ignore=shutil.ignore_patterns("__pycache__"))
             elif os.path.isdir(src):
-                os.symlink(src, os.path.join(d, item))
+                # copied, never linked: a mutant may delete or overwrite what it is pointed at
+                shutil.copytree(src, os.path.join(d, item), ignore=shutil.ignore_patterns("__pycache__"))
         if patch:
             subprocess.run(["patch", "-p1", "-s", "-d", d, "-i", os.path.abspath(patch)], check=True)
         else:
